@@ -219,7 +219,7 @@ def _quick(seed):
 
 _base = X.make(
     "C21", _judge_with_groups,
-    quick=_quick, thorough=X.std_thorough(d3=False, sources=X.std_sources("thorough") + _SQUARE),
+    quick=_quick, thorough=X.std_thorough(d3=False, sources=X.std_sources("quick") + _SQUARE),
     rule="every program of the E1 depth<=2 space: __frisky_graph__() and __frisky_records_chunks__() either decline with NotImplementedError (counted) or yield records with unique keys, every dependency produced and declared, no cycle, every __frisky_output_keys__() key produced, and an in-process record executor (resolving TaskRefs in nested list/tuple/dict arguments) computes block values equal to __dask_graph__()'s for every output key; plus groups of 2-3 collections sharing subtrees walked with one shared `seen` set. Non-trivial = multi-block program",
     assumptions=["without the native extension every node goes through the generic GraphRecordsLayer", "programs whose dask graph itself fails are judged by C01/C04, not here"],
     floors={"record_graphs": 2000},
